@@ -22,7 +22,7 @@ LevelDecs == <<"0.001", "0.01", "0.05", "0.1", "0.2", "0.25", "0.3", "0.5", "0.7
 CKinds == <<"two", "upper", "lower">>
 Conf(ki, li) == [kind |-> CKinds[ki], level |-> [dec |-> LevelDecs[li]]]
 FrontEnds == <<"ci", "ci_wilson_ratio", "ci_true", "ci_if", "stats_new", "stats_from_iter",
-               "stats_extend_if", "stats_add">>
+               "stats_extend", "stats_extend_if", "stats_add", "stats_mixed">>
 
 \* sampled large populations with k drawn by TLC (seeded)
 BigNs == <<1000, 9999, 65536, 250000, 1000003, 10000000>>
